@@ -39,7 +39,8 @@ RULE = ("random histories (1-60 operations) of set/change/delete range "
         "temporary feature followed by apply_filter(force=[feature]), over "
         "in-memory datasets (15 % as hierarchy child) of 1-40 events and 1-4 "
         "scalar features (+index, 0-2 temporary, in 30 % a computed "
-        "area_ratio with NaN where all stored features are finite) with "
+        "area_ratio with NaN where all stored features are finite, in 25 % "
+        "ml_score_xxx features with NaN + the ancillary ml_class) with "
         "dyadic values, ties, NaN and +-inf; a case is non-trivial when it "
         "applies at least twice with a settings change in between and some "
         "application selects a proper non-empty subset; distinct = different "
@@ -202,8 +203,18 @@ def gen_case(rng, thorough=False, maxops=60):
         cols["area_ratio"] = [[0, k // m] if m else [1, 0]
                               for k, m in zip(cvx, msd)]
         computed = ["area_cvx", "area_msd", "area_ratio"]
+    if rng.random() < 0.25:
+        # ml_score_xxx: scalar features that are valid by name pattern only
+        # (plus the ancillary ml_class computed from them)
+        for name in ["ml_score_abc", "ml_score_xy1"][:rng.choice([1, 1, 2])]:
+            p_nan = rng.choice([0, 0.2, 0.4])
+            data[name] = [[1, 0] if rng.random() < p_nan
+                          else [0, rng.randint(0, 8)] for _ in range(n)]
+            cols[name] = data[name]
+            computed.append(name)
+        computed.append("ml_class")
     present = sorted(present + computed)
-    axes_pool = present + ["index"]
+    axes_pool = [f for f in present if f != "ml_class"] + ["index"]
     nver = rng.randint(1, 4)
     versions = []
     for _ in range(nver):
@@ -499,6 +510,15 @@ def inside_fresh(ds, axes, points8):
     return np.array(points_in_poly(points=pts, verts=verts), dtype=bool)
 
 
+def scalar_features(ds):
+    """The scalar features of a dataset, by the definition of a scalar
+    feature (not via RTDCBase.features_scalar, which is code under test):
+    every available feature that dclab knows as scalar, incl. ml_score_xxx
+    (valid by name pattern), temporary and plugin features."""
+    from dclab import definitions as dfn
+    return [f for f in ds.features if dfn.scalar_feature_exists(f)]
+
+
 def reference(ds, manual):
     """Stateless evaluation of the current settings; returns
     (box, invalid, polygon, qualifying) as lists of bool."""
@@ -508,7 +528,7 @@ def reference(ds, manual):
     from dclab.external.skimage.measure import points_in_poly
     cfg = ds.config["filtering"]
     n = len(ds)
-    feats = list(ds.features_scalar)
+    feats = scalar_features(ds)
     cols = {f: [float(x) for x in np.array(ds[f], dtype=np.float64)]
             for f in feats}
     box = [True] * n
@@ -590,7 +610,7 @@ def run_impl(case, want_trace=False):
     for name in temp:
         if not dfn.scalar_feature_exists(name):
             dclab.register_temporary_feature(name, is_scalar=True)
-    feats = list(ds.features_scalar)          # before any temporary feature
+    feats = scalar_features(ds)               # before any temporary feature
     # feature numbers are ordered like the names (np.unique sorts names)
     names = sorted(set(feats) | set(case["absent"]) | set(temp))
     cols = {f: np.array(ds[f], dtype=np.float64) for f in feats}
